@@ -64,6 +64,8 @@ CONSTANTS Designs,        \* set of [types |-> <<block type names, bottom-up, wi
           Growths,        \* growth fractions L1/L0 (rationals) a prescribed call may use
           MaxNonUnit,     \* a prescribed call changes at most this many components (Uniform calls are always explored)
           LevelTriples,   \* thermal fields are 3-step profiles <<l1,l2,l3>> with two break points; {} = no thermal calls
+          BreakStep,      \* the break points of the profiles are the multiples of BreakStep (1 = every grid point)
+          FromInput,      \* values of expandFromTinputToThot explored (subset of BOOLEAN)
           ExplicitTargets,\* TRUE: every choice of an explicit (blueprint) target component per block is explored too
           Refusals,       \* TRUE: also explore the calls refused with RuntimeError
           MaxLevel
@@ -140,9 +142,10 @@ LinkedTy(x, y) == /\ x.solid /\ y.solid
 DNames(d, b) == IF b >= 1 /\ b <= Len(d.types) THEN BT[d.types[b]].comps ELSE <<>>   \* the dummy holds only coolant (outside the model)
 DLinks(d, b, i, bb) == {j \in 1..Len(DNames(d, bb)) : LinkedTy(CT[DNames(d, b)[i]], CT[DNames(d, bb)[j]])}
 Pick(S) == IF S = {} THEN 0 ELSE CHOOSE j \in S : TRUE
-StaticOf(d) ==
+StaticOf(d, ex) ==
     LET k == Len(d.types) IN
     [types |-> d.types, hs |-> d.hs, hd |-> d.hd, k |-> k,
+     expl  |-> [b \in 1..(k + 1) |-> IF ex[b] = 0 THEN "" ELSE DNames(d, b)[ex[b]]],   \* blueprint (explicit) target names
      H     |-> SumSeq(d.hs, k) + d.hd,
      ng    |-> (SumSeq(d.hs, k) + d.hd) \div 2,
      names |-> [b \in 1..(k + 1) |-> DNames(d, b)],
@@ -275,8 +278,9 @@ PrescribedBad(kind, setFuel) ==
 NG    == A.ng
 TPoint(j) == <<26 * (j - 1) + 1, 13>>                       \* z_j = 2(j-1) + 1/13  (never on a block boundary: GridClear)
 TGrid == [j \in 1..NG |-> TPoint(j)]
+Breaks == {p \in 0..NG : p % BreakStep = 0}
 StepFields == UNION {{[j \in 1..NG |-> IF j <= p THEN tr[1] ELSE IF j <= q THEN tr[2] ELSE tr[3]] :
-                          p \in 0..NG, q \in 0..NG} : tr \in LevelTriples}
+                          p \in Breaks, q \in Breaks} : tr \in LevelTriples}
 InBlock(b, j) == RLeq(zb[b], TPoint(j)) /\ RLeq(TPoint(j), zt[b])         \* b.p.zbottom <= z <= b.p.ztop
 Pts(b) == {j \in 1..NG : InBlock(b, j)}
 \* statistics.mean of the field values at those points
@@ -310,7 +314,7 @@ ThermalBadLen(setFuel) ==
 InitFor(d, ex) ==
     LET k == Len(d.types)
         hh == d.hs \o <<d.hd>>
-    IN /\ A = StaticOf(d)
+    IN /\ A = StaticOf(d, ex)
        /\ zt = [b \in 1..(k + 1) |-> RInt(SumSeq(hh, b))]
        /\ zb = [b \in 1..(k + 1) |-> RInt(SumSeq(hh, b - 1))]
        /\ h  = [b \in 1..(k + 1) |-> RInt(hh[b])]
@@ -332,7 +336,7 @@ Init == \E d \in Designs : \E ex \in ExplChoices(d) : InitFor(d, ex)
 SetFuelChoices == IF \A b \in 1..K : tname[b] # 0 THEN {TRUE} ELSE BOOLEAN
 Next == \/ \E g \in SparseVectors, sf \in SetFuelChoices : Prescribed(g, sf, "sparse")
         \/ \E g \in UniformVectors : Prescribed(g, TRUE, "uniform")
-        \/ \E f \in StepFields, fi \in BOOLEAN : Thermal(f, TRUE, fi)
+        \/ \E f \in StepFields, fi \in FromInput : Thermal(f, TRUE, fi)
         \/ \E kind \in {"zero", "negative", "length"} : PrescribedBad(kind, TRUE)
         \/ ThermalBadLen(TRUE)
 Spec == Init /\ [][Next]_vars
@@ -399,10 +403,9 @@ RoundTripAny == (Expanded /\ lg2 # <<>> /\ Len(path) >= 2 /\ InverseGrowth(lg, l
 NameOf(b, i) == IF i = 0 THEN "" ELSE CNames(b)[i]
 Sq(x) == RMul(x, x)
 Obs == [zb |-> zb, zt |-> zt, h |-> h, mesh |-> mesh, placed |-> placed, broken |-> broken, err |-> err,
-        total |-> zt[NBk],
+        total |-> zt[NBk], hsum |-> RSumSeq(h), fluid |-> ROne,
         zmid |-> [b \in 1..NBk |-> RAdd(zb[b], RDiv(h[b], RInt(2)))],
         tname |-> [b \in 1..NBk |-> NameOf(b, tname[b])],
-        multi |-> MultiLinked,
         comp |-> [b \in 1..K |-> [i \in 1..NC(b) |->
                     [name |-> CNames(b)[i], solid |-> Solid(b, i),
                      h |-> comp[b][i].h, zb |-> comp[b][i].zb, zt |-> comp[b][i].zt,
